@@ -169,6 +169,7 @@ func roundTrip(e *Env, name string, w, r goat.RpcReadWriter, envs []*Rpc) {
 				werr = err
 				break
 			}
+			e.Log("t.written."+shape(env), name, 0, "")
 		}
 		wdone = true
 	})
@@ -181,6 +182,7 @@ func roundTrip(e *Env, name string, w, r goat.RpcReadWriter, envs []*Rpc) {
 				break
 			}
 			got = append(got, m)
+			e.Log("t.read", name, 0, "")
 		}
 		rdone = true
 	})
@@ -394,6 +396,7 @@ func execWebsocketTransport(e *Env, p *TransportParams) {
 			}
 			e.Note("nontrivial")
 			e.Note(fmt.Sprintf("ws.raw.kind%d", ri.Kind%4))
+			e.Log(fmt.Sprintf("ws.raw.kind%d", ri.Kind%4), "", 0, "")
 			if !done {
 				e.Violate(prop, "hang", "websocket.raw", "Read did not return for raw input kind %d", ri.Kind%4)
 				return
@@ -583,6 +586,7 @@ func execHTTPTransport(e *Env, p *TransportParams) {
 				return
 			}
 			e.Note(fmt.Sprintf("http.raw.kind%d", ri.Kind%7))
+			e.Log(fmt.Sprintf("http.raw.kind%d", ri.Kind%7), "", code, "")
 			e.Note("nontrivial")
 			if want400 && code != 400 {
 				e.Violate(prop, "malformed-not-400", "http.ServeHTTP", "malformed request kind %d answered with HTTP %d, want 400", ri.Kind%7, code)
